@@ -198,14 +198,23 @@ class Ctx:
         """Execute every case against the real library, judge all observations with TLC."""
         obs_path = os.path.join(self.work, stage + ".obs.ndjson")
         obs = []
+        # a stage normally takes seconds to a few minutes; a library so broken that the cases crawl (or time out one after the other) must not keep the
+        # check from reporting: after the budget the remaining cases of the stage are not executed (those executed are judged as usual)
+        budget = float(os.environ.get("VERIF_STAGE_BUDGET", "900" if self.tier == "quick" else "7200"))
+        t_stage, n_timeouts = time.time(), 0
         with open(obs_path, "w") as f, warnings.catch_warnings():
             warnings.simplefilter("ignore")
             for c in cases:
+                if time.time() - t_stage > budget or n_timeouts >= 12:
+                    self.notes.setdefault("stages_cut_short", []).append({"stage": stage, "executed": len(obs), "of": len(cases)})
+                    cases = cases[:len(obs)]
+                    break
                 try:
                     o = call_with_timeout(lambda: execute(c), per_case_timeout)
                     o.setdefault("err", "")
                 except Timeout:
                     o = {"err": "Timeout"}
+                    n_timeouts += 1
                 except Exception as ex:  # the library raised: an observation like any other
                     o = {"err": type(ex).__name__, "msg": str(ex)[:200]}
                     if os.environ.get("VERIF_DEBUG"):
@@ -299,6 +308,8 @@ class Ctx:
         os.makedirs(evdir, exist_ok=True)
         with open(os.path.join(evdir, self.pid + ".json"), "w") as fh:
             json.dump(ev, fh, indent=1)
+        if rc == 0 and self.notes.get("stages_cut_short"):
+            raise Machinery("a stage ran out of its time budget before all cases were executed, and no violation was found: %s" % self.notes["stages_cut_short"])
         for l in lines:
             print(l)
         print("%s tier=%s: %d cases executed, %d accepted by the TLA+ judge, %d TLC states, %d violations (%d new keys), %.1fs"
